@@ -115,8 +115,8 @@ Proof.
   rewrite (att_sq_rev _ me s t w Hs Ht).
   pose proof (no_attack_on_king s Hs) as Hno. unfold att_rev in *.
   destruct (at_ p s) as [[q c']|]; [|reflexivity].
-  destruct (color_eqb (opp me) c'); [|reflexivity]. cbn [andb] in *.
-  destruct q; try reflexivity.
+  destruct (color_eqb (opp me) c'); cbn [andb] in *; [|reflexivity].
+  destruct q; [reflexivity|reflexivity| | | |reflexivity].
   - apply lift_bishop; assumption.
   - apply lift_rook; assumption.
   - apply orb_false_elim in Hno. destruct Hno as [H1 H2].
